@@ -54,7 +54,16 @@ func verifSharedConfig(withInfo bool) *nfpm.Config {
 // if no operation changes the configuration and each package is a function of
 // it, then any sequence of operations yields what a fresh parse yields).
 func verifIsolation(op, format string, withInfo bool, prop string) {
-	cfg := verifSharedConfig(withInfo)
+	// every compressor a format can be told to use (each is a different code
+	// path with its own writer objects)
+	comp := v.NondetChoice("compression.variant", 4)
+	verifCfg := func() *nfpm.Config {
+		cfg := verifSharedConfig(withInfo)
+		cfg.Deb.Compression = []string{"", "zstd", "xz", "none"}[comp]
+		cfg.RPM.Compression = []string{"", "zstd", "xz", "lzma"}[comp]
+		return cfg
+	}
+	cfg := verifCfg()
 	v.Snapshot(cfg, "config")
 	if prop == "C12" {
 		v.WatchGlobals()
@@ -80,7 +89,7 @@ func verifIsolation(op, format string, withInfo bool, prop string) {
 		// format, and for the same format from independent settings, concurrently,
 		// under `go test -race` (the driver looks for the detector's report)
 		other := Formats[(indexOf(format)+1)%len(Formats)]
-		indep := verifSharedConfig(withInfo)
+		indep := verifCfg()
 		done := make(chan bool, 3)
 		run := func(c *nfpm.Config, f string) {
 			defer func() { done <- true }()
@@ -98,7 +107,7 @@ func verifIsolation(op, format string, withInfo bool, prop string) {
 				Packager(f).Package(nfpm.WithDefaults(info), &buf)
 			}
 		}
-		fresh := verifSharedConfig(withInfo)
+		fresh := verifCfg()
 		go run(fresh, format)
 		go run(fresh, other)
 		go run(indep, format)
